@@ -45,7 +45,7 @@ CONFIG = {
     'must_sig': ['case:A_before_B', 'case:same_var', 'case:B_before_A',
                  'case:terminal_operand', 'restrict:var_absent',
                  'restrict:var_at_root', 'restrict:var_inside',
-                 'site:pyModelChecking.BDD.OBDD:*'],
+                 'site:pyModelChecking.BDD.OBDD:*', 'sparse:4vars', 'sparse:5vars'],
     'rule': ('cases = (operation, operand functions, ordering); enumerated: '
              'all 65,536 ordered pairs of the 256 Boolean functions of 3 '
              'variables for & | ^ (each pair under one ordering rotated '
@@ -368,7 +368,7 @@ def run(ctx):
                                                      'restrict']})
     V4 = ['a', 'b', 'c', 'd']
     ords4 = list(itertools.permutations(V4))
-    n4 = 40 if ctx.quick else 1500
+    n4 = 120 if ctx.quick else 3000
     for k in range(n4):
         ta, tb = r.getrandbits(16), r.getrandbits(16)
         if not ctx.mine(k):
@@ -386,6 +386,38 @@ def run(ctx):
             for v in V4:
                 A.restrict(v, k % 2)
             A.variables()
+    # sparse functions over 4-5 variables: operands that depend on few,
+    # far-apart variables, so that roots sit several positions apart in the
+    # ordering and restricted variables occur only in parts of a diagram
+    V5 = ['a', 'b', 'c', 'd', 'e']
+    nsp = 260 if ctx.quick else 12000
+    for k in range(nsp):
+        rr = gen.rng(ctx.seed, PROP, ('sparse', k))
+        nv = 4 if k % 3 else 5
+        vs = V5[:nv]
+        order = list(vs)
+        rr.shuffle(order)
+        if not ctx.mine(k):
+            continue
+        _cache.clear()
+
+        def sparse():
+            sub = rr.sample(vs, rr.randint(1, 3))
+            tt_sub = rr.getrandbits(1 << len(sub))
+            e = refbool.expr_of_tt(tt_sub, sub, rr.randrange(3))
+            return OBDD(e, list(order))
+        A, B = sparse(), sparse()
+        LOG.sig['sparse:%dvars' % nv] += 1
+        A & B
+        A | B
+        A ^ B
+        B ^ A
+        ~A
+        (A & B) ^ (A | B)
+        for v in vs:
+            A.restrict(v, k % 2)
+            (A | B).restrict(v, (k + 1) % 2)
+        (A ^ B).variables()
     # orderings that differ / variables outside the ordering
     for k in range(40):
         if not ctx.mine(k):
